@@ -4,6 +4,7 @@ Property theorems only; helper lemmas live in `ConfModel.Lemmas.H2*`.
 -/
 import ConfModel.Generated.C15Facts
 import ConfModel.Lemmas.H2Frame
+import ConfModel.Lemmas.H2FrameW
 import ConfModel.Lemmas.H2Retry
 import ConfModel.Lemmas.H2FrameSpec
 import ConfModel.Lemmas.H2Once
@@ -103,6 +104,93 @@ example :
       [clientPreface.take 10, clientPreface.drop 10 ++ [0, 0, 0, 4], [0, 0, 0, 0, 0]]).2 = [Frame.other] := by
   decide
 
+
+/-! ### layer 1 at the code's own widths: no frame length wraps a counter -/
+
+/-- The widths the fixed-width machine (`Model/H2FrameW.lean`: `expecting : UInt32`,
+`actual : UInt64`) is written for are those of the fields of `http2FrameTracer` and of
+`http2.FrameHeader.Length`, read off the compiled struct types on every run; the largest length
+the real `http2.ReadFrameHeader` reads from three length bytes is 2^24 - 1 (what a peer that
+raised SETTINGS_MAX_FRAME_SIZE to its maximum may send). -/
+theorem frame_width_facts :
+    Generated.C15Facts.ftExpectingBits = ftExpectingBits ∧ Generated.C15Facts.ftActualBits = ftActualBits ∧
+    Generated.C15Facts.frameLengthBits = frameLengthBits ∧
+    (Generated.C15Facts.ftExpectingSigned || Generated.C15Facts.ftActualSigned || Generated.C15Facts.frameLengthSigned) = false ∧
+    Generated.C15Facts.maxWireFrameLen = 2 ^ (8 * wireLengthBytes) - 1 ∧
+    Generated.C15Facts.maxWireFrameLen < 2 ^ Generated.C15Facts.ftExpectingBits ∧
+    UInt32.size = 2 ^ ftExpectingBits ∧ UInt64.size = 2 ^ ftActualBits := by decide
+
+/-- every frame length the model reads from a header has 24 bits (it fits `expecting`) -/
+theorem frame_length_24bit (h : Bytes) : hdrLen h < 2 ^ 24 ∧ hdrLen h ≤ Generated.C15Facts.maxWireFrameLen := by
+  have := hdrLen_lt h
+  exact ⟨this, by simp only [Generated.C15Facts.maxWireFrameLen]; omega⟩
+
+/-- … and every 24-bit length is announced by some header: the bound is sharp -/
+theorem frame_length_onto (n : Nat) (hn : n < 2 ^ 24) :
+    hdrLen [UInt8.ofNat (n / 65536), UInt8.ofNat (n / 256 % 256), UInt8.ofNat (n % 256)] = n := by
+  simp only [hdrLen, UInt8.toNat_ofNat']
+  omega
+
+/-- **No wrap in `need := int(h.expecting - uint32(h.actual))`** for every 24-bit frame length
+(indeed every `uint32` one) and every number of payload bytes already seen: Go's `uint32(…)`
+truncation of the 64-bit counter and the wrapping `uint32` subtraction give the exact number of
+missing bytes. -/
+theorem frame_need_no_wrap (len seen : Nat) (hlen : len < 2 ^ 24) (hseen : seen ≤ len) :
+    needPayloadW (UInt32.ofNat len) (UInt64.ofNat seen) = len - seen := by
+  have h1 : (UInt32.ofNat len).toNat = len := u32_ofNat_toNat len (by omega)
+  have h2 : (UInt64.ofNat seen).toNat = seen := by
+    rw [UInt64.toNat_ofNat']; exact Nat.mod_eq_of_lt (by omega)
+  rw [needPayloadW_eq _ _ (by rw [h1, h2]; exact hseen), h1, h2]
+
+example : needPayloadW (UInt32.ofNat (2 ^ 24 - 1)) (UInt64.ofNat 16384) = 2 ^ 24 - 1 - 16384 := by decide
+example : needPayloadW (UInt32.ofNat 65536) (UInt64.ofNat 65535) = 1 := by decide
+
+/-- why the width of `expecting` matters: with 16 bits a frame of 65536 bytes (legal once the peer
+raised SETTINGS_MAX_FRAME_SIZE) would look empty and one of 65537 bytes like a 1-byte frame -/
+theorem frame_narrow_expecting_wraps :
+    needPayload16 65536 0 = 0 ∧ needPayload16 65537 0 = 1 ∧ needPayload16 65535 0 = 65535 ∧
+    needPayloadW (UInt32.ofNat 65536) 0 = 65536 ∧ needPayloadW (UInt32.ofNat 65537) 0 = 65537 := by decide
+
+/-- **The fixed-width machine simulates the `Nat` machine**: from the initial state, for every
+decoder and every bytes cut into calls in every way — frames of any announced length, well-formed
+or not —, after every call the states correspond (`FStW.abs`) and the same frames have been handed
+to `handleFrame`.  No hypothesis on sizes: `actual < expecting < 2^24` on every reachable state. -/
+theorem frame_widths_simulate (dec : Bytes → σ → Option (Frame × σ)) (isReq : Bool) (hp : σ) (chunks : List Bytes) :
+    (((frameMachineW dec).runChunks (FStW.init isReq hp) chunks).1.abs,
+     ((frameMachineW dec).runChunks (FStW.init isReq hp) chunks).2)
+      = (frameMachine dec).runChunks (FSt.init isReq hp) chunks := by
+  have := runChunks_sim (frame_lawful dec) (frameW_sim dec) chunks (FStW.init isReq hp)
+    (by rw [abs_initW]; exact FInv_init isReq hp)
+  rw [this, abs_initW]
+
+/-- one call from any state that stands for a reachable one -/
+theorem frame_widths_simulate_call (dec : Bytes → σ → Option (Frame × σ)) (s : FStW σ) (hs : FInv s.abs) (d : Bytes) :
+    ((frameTraceW dec s d).1.abs, (frameTraceW dec s d).2) = frameTrace dec s.abs d :=
+  run_sim (frame_lawful dec) (frameW_sim dec) s d hs
+
+/-- **Frames of every legal length are reassembled by the code's arithmetic.**  If a direction's
+bytes are the preface (request direction) and the encodings of raw frames with payloads of up to
+2^24 - 1 bytes, cut into calls in any way, the fixed-width machine hands the decoder exactly those
+frames (header blocks joined) and gives up exactly where the decoder rejects one. -/
+theorem frame_widths_eq_frames (dec : Bytes → σ → Option (Frame × σ)) (isReq : Bool) (hp : σ)
+    (fs : List RawFrame) (hok : ∀ f ∈ fs, f.ok) (chunks : List Bytes)
+    (hc : chunks.flatten = (if isReq then clientPreface else []) ++ (fs.map RawFrame.enc).flatten) :
+    ((frameMachineW dec).runChunks (FStW.init isReq hp) chunks).2 = (specFrames dec [] hp fs).1 ∧
+    ((frameMachineW dec).runChunks (FStW.init isReq hp) chunks).1.broken = (specFrames dec [] hp fs).2 := by
+  have hsim := frame_widths_simulate dec isReq hp chunks
+  have h1 := congrArg Prod.fst hsim
+  have h2 := congrArg Prod.snd hsim
+  simp only at h1 h2
+  have h := reassembly_eq_frames_chunked dec isReq hp fs hok chunks hc
+  rw [← h1, ← h2] at h
+  exact h
+
+/-- non-vacuity: a DATA frame of 3 bytes behind a SETTINGS frame, cut inside the header and inside
+the payload, run by the fixed-width machine -/
+example :
+    ((frameMachineW (fun b (n : Nat) => some (Frame.rst b.length n, n + 1))).runChunks (FStW.init false 0)
+      [[0, 0, 0, 4, 0], [0, 0, 0, 0, 0, 0, 3, 0], [1, 0, 0, 0, 1, 7], [8, 9]]).2 = [Frame.rst 9 0, Frame.rst 12 1] := by
+  decide
 
 /-! ### layer 2: streams -/
 
